@@ -38,6 +38,76 @@ CHECKS = {
         text='Runtime monitoring: every generated resource is supplied through 11-14 routes (xml, odd file name, gz, xz, package directory with extra files, collection, tar/tar.gz/tar.xz of file, package and collection, in-memory), each on an empty database; dumps must be identical between order-preserving routes, observations identical for all, one route is also compared with the reference model; re-adding (same and another route) must change nothing, an extension without base must store nothing; audit hooks check that no input is opened for writing or modified and no temporary file survives.',
         note='Collections hold mutually independent packages; their iteration order is not controlled (per-lexicon comparison only).',
         ref='3/C07'),
+    'C04': dict(
+        technique='membership invariant on every entity object the observation walk touches + differential non-interference monitor between three real databases (insiders / + outsiders / outsiders removed), classified by the reference model',
+        text='Runtime monitoring: for 15 selection/expand settings over a universe of related lexicons with colliding identifiers, the full public-API observation of Wordnet(S, expand=E) is taken in a database holding only S, its expand set and needed bases, again after every other lexicon (other versions, unselected extensions of members of S, unrelated lexicons sharing ids/forms/ILIs) was added, and again after they were removed; the three observations must be identical and every returned entity must belong to S. Held on K universes.',
+        note='Which extensions/dependencies of a lexicon are installed is dependency bookkeeping (C05), masked here. Known finding: tags/pronunciations have no owner column.',
+        ref='3/C04'),
+    'C05': dict(
+        technique='history monitor: reference model of the installed set + structural audit of the SQLite file after every operation + observation vs model + second real execution (fresh database) at the end',
+        text='Runtime monitoring over random add/remove/ILI histories on a universe of related lexicons: after every operation the installed set, dependency links and a structural audit (foreign keys, ownership, dangling references, link columns) are checked, observations of every family are compared with the model every few operations, every removed lexicon is added again, and the final database is compared with a fresh one built from just the installed lexicons. Held on K histories.',
+        note='ILI inventory and cross-lexicon order excluded as the statement says. Known finding: extension tags/pronunciations survive removal.',
+        ref='3/C05'),
+    'C08': dict(
+        technique='reference-model monitor of specifier selection (wn.lexicons, wn.Wordnet, wn.remove on copies) over generated databases and enumerated specifier strings',
+        text='Runtime monitoring: databases with several ids (prefixes of each other), several versions per id added in random order, two languages; every specifier of up to 3 items built from ids, versions, stars and globs x lang is resolved by the real code and compared, as a set, with the model written from docs/guides/lexicons.rst; error/empty behaviour for no match. Held on K (database, specifier, lang) triples.',
+        note="'?' / '[..]' globs not generated; a list given to remove() may be read as a snapshot or item by item.",
+        ref='3/C08'),
+    'C09': dict(
+        technique='reference-model monitor of words()/senses()/synsets() over generated lexicons x queries x 16 Wordnet configurations',
+        text='Runtime monitoring: every (query, pos) is run through the real Wordnet in each configuration (normalizer on/off, search_all_forms on/off, no/custom/Morphy/initialized-Morphy lemmatizer) and in two scopes (lexicon alone, lexicon + extension adding forms and words); result sets and duplicate-freeness are compared with the documented two-pass search procedure. Held on K comparisons.',
+        note='Scopes never contain an unselected extension (C04 owns that).',
+        ref='3/C09'),
+    'C10': dict(
+        technique='reference-model monitor of navigation + identity-filing monitor (==/hash/set collapse of objects denoting one stored entity) + translate() model and symmetry',
+        text='Runtime monitoring: universes with three versions of one lexicon id, extensions attaching senses to base entries and synsets, unrelated lexicons with identical identifiers; in default, single, multi-version, colliding, family, extension-only and lang selections the observation is compared with the model, every object reached by any route is filed under its identity and checked for equality/hash consistency, and synset/sense/word translation is compared with the ILI model incl. symmetry. Held on K universes x selections.',
+        note='wn.Error is accepted where the declared word/synset lies outside a restricted selection.',
+        ref='3/C10'),
+    'C11': dict(
+        technique='reference-model monitor of relation queries with type-argument sets + closure/relation_paths vs reachability and simple-path enumeration + step monitor (get_related expansions) as bounded-progress termination check',
+        text='Runtime monitoring on dense relation multigraphs (self-loops, cycles, parallel relations differing in type, dc:type or metadata, duplicates, made-up types) over base+extension families in four scopes: relations(), get_related(), get_related_synsets(), relation_map(), closure(), relation_paths() and the hypernyms()/.. shortcuts are compared with the model for six type-argument sets per entity; expansions per call are counted against a budget derived from the graph. Held on K families.',
+        note='ILIs absent/disjoint so that expansion (C12) adds nothing.',
+        ref='3/C11'),
+    'C12': dict(
+        technique='reference-model monitor of ILI expansion (borrowed relations, placeholders, own-before-borrowed order, relation_map keys) + constructor monitor (expanded_lexicons, missing-dependency warning) + hypernym_paths through placeholders',
+        text='Runtime monitoring on triples of lexicons with partially overlapping ILIs under seven expand settings and declared/undeclared, installed/missing dependencies; observations, expand sets, warnings and hypernym paths through chains of placeholder synsets are compared with the model. Held on K triples x settings.',
+        note='relation_map() is a dict: with many-to-many ILI matches one of the admissible values per key is accepted, the key set must be complete.',
+        ref='3/C12'),
+    'C13': dict(
+        technique='exhaustive small-graph enumeration (all labelled digraphs on <=3 nodes; 4 nodes up to isomorphism) + random larger graphs under a graph-theoretic reference (BFS/DFS) + step monitor',
+        text='Runtime monitoring: the real wn.taxonomy functions and Synset shortcuts are run on every graph, node, ordered pair and simulate_root value and compared with a 60-line BFS/DFS reference; exhaustive: true refers to the enumerated spaces only (n<=3 labelled: 530 graphs; n=4 loop-free classes in quick, all 3044 classes in thorough).',
+        note='lowest_common_hypernyms exact on DAGs, reading-independent consequences on cyclic graphs. Known finding: taxonomy_depth on some cyclic graphs.',
+        ref='3/C13'),
+    'C14': dict(
+        technique='formula monitor for the six metrics over the C13 graphs with weights from the real ic.compute and arbitrary weights; symmetry, bounds and error-behaviour monitors',
+        text='Runtime monitoring: every ordered pair x simulate_root x metric is evaluated by the real code and compared with the documented formula computed from the graph-theoretic reference (any lowest common hypernym admissible where several exist); symmetry, ranges, self-similarity maxima and the documented errors are checked on all graphs incl. cyclic ones. Held on K graphs.',
+        note='Lin = 2 IC(c0)/(IC(c1)+IC(c2)); under simulate_root k may or may not count the virtual root.',
+        ref='3/C14'),
+    'C15': dict(
+        technique='conservation/counted-once/monotonicity monitor: real ic.compute vs exact rational arithmetic over ancestor sets; probability/IC range checks along real hypernym links; load() on generated weight files',
+        text='Runtime monitoring: graphs incl. diamonds, deeper convergences and cycles, word inventories with ambiguous, multi-word and non-lemma-only words, corpora with unknown tokens, distribute_weight in {True, False}, smoothing in {1, 0.5, 0.001, 0}; totals and every synset weight are compared with exact fractions, then monotonicity, probability in (0,1] and information content >= 0. Held on K (graph, corpus, options) tuples.',
+        note='Hypernymy inside one part of speech (a/s merged) as in the quantifier.',
+        ref='3/C15'),
+    'C16': dict(
+        technique='differential process runs: the same database file given to subprocesses with different PYTHONHASHSEED; canonical transcripts of a full API battery compared byte-wise; in-process repetition; SQL trace for writes',
+        text='Runtime monitoring: a battery covering every public query, navigation, taxonomy, similarity, IC, Morphy, validate, dump and export call (several thousand transcript lines per database) is executed twice in each of 4 (quick) / 12 (thorough) processes with different hash seeds on generated databases with planted ties; transcripts must be byte-identical, the battery must not write. Held on K databases x seeds.',
+        note='Sets are compared sorted (they carry no order); lists and mappings keep their order.',
+        ref='3/C16'),
+    'C17': dict(
+        technique='reference-model monitor of Morphy: exact for the uninitialized mode (rules as data), must/may bounds for the initialized mode, union-over-pairs for Wordnet(lemmatizer=...)',
+        text='Runtime monitoring: lexicons with inflection-like lemmas, irregular forms shared between words and parts of speech, a/s entries and bare-suffix lemmas; every query (stored forms, every rule suffix attached, bare suffixes, unrelated strings) x pos in {None,n,v,a,s,r,t,x} is given to both Morphy modes and to Wordnets using them (normalizer off). Held on K comparisons.',
+        note='Rule table transcribed from the documentation as data.',
+        ref='3/C17'),
+    'C18': dict(
+        technique='must/may reference monitor per check code over generated and corrupted lexicons x selections; never-raises, exact code set, add() rejection and CLI exit-status monitors',
+        text='Runtime monitoring: valid and multiply corrupted lexicons (34 corruption kinds) are validated by the real code for every single code, E, W, subsets and the empty selection; each report must contain exactly the selected codes with documented messages and item keys within must <= reported <= must|may; E204/E401 lexicons must be refused by add_lexical_resource; python -m wn validate must exit 0 iff nothing is reported. Held on K (lexicon, selection) pairs.',
+        note='Where duplicated identifiers make the entity ambiguous the must-set shrinks (appendix A of DESIGN.md).',
+        ref='3/C18'),
+    'C19': dict(
+        technique='history monitor with reference model of the ILI table: table dump before/after (only ilis/ili_statuses may change, rowids stable), idempotence, order independence, full observation vs model',
+        text='Runtime monitoring: random interleavings of lexicon adds and ILI-index adds (plain, package, gz; ILI/ili header, missing columns, CRLF, empty definitions, made-up statuses, unused ids); after every operation the ilis table, the observation of every lexicon, wn.ilis(status=..) and wn.ili() are compared with the model; loading twice must change nothing; index-first and lexicons-first orders must agree. Held on K histories.',
+        note='ILI metadata is outside the statement.',
+        ref='3/C19'),
 }
 
 NOT_YET = 'check not built yet in this round (work in progress; see DESIGN.md section 3 for the design)'
